@@ -15,6 +15,44 @@ CLAIMS = {
         "svds ascending order, default ddof=0.",
         "technique": "def-use provenance with operator paths (exponent/denominator classification, conjugation parity), slice-shape checks",
     },
+    "C03": {
+        "text": "Scaler.transform and inverse_transform_data are reduced to their affine steps (operator, fitted factor, flag): every factor is undone "
+        "by the inverted operator under the same flag, once, with the mean removed first and restored last; every def-use path of data through "
+        "the stage objects of the single- and cross-set families respects preprocessor -> pca -> whitener forward and the reverse back, never "
+        "crosses fields, and public results leave through the preprocessor's inverse; PCA/whitener score maps are identities; every "
+        "'normalized' switch divides in score-producing directions and multiplies in the others by the per-mode norms of the same field.",
+        "note": "Necessary structural clauses only. Not decided: the numerical round-trip identity, SparsePCA/POP approximations.",
+        "technique": "affine-map extraction by provenance + guard analysis, stage-chain order typing over def-use paths, field-index typing",
+    },
+    "C04": {
+        "text": "Every projection of data on stored components (cross family, both rotator families, EOF, SparsePCA) is typed: components that passed a "
+        "whitener pattern map are patterns and may not serve as projection weights, and the number of forward stages on the data matches the basis of "
+        "the components; the cross rotator stores its vectors in whitened PC space; every per-mode factor the rotators' fit applies to the model's "
+        "score chain and stores (singular values, norms, sign) is applied by transform with the same operator, per field; no list accumulator "
+        "initialised before a loop is rebound inside it (positive fixture fires each run).",
+        "note": "Necessary structural clauses only. Not decided: numerical equality, tolerance, sign identity as values. Field-index and stage-order "
+        "clauses of transform are decided under C03/C09; the rotation-matrix pairing under C11; label paths under C05.",
+        "technique": "pattern/weight and basis typing of dot-product operands from stage provenance, fit-vs-transform factor agreement by source signatures, AST lint with fixture",
+    },
+    "C05": {
+        "text": "The label-restoring methods bound to fit-time sample coordinates are derived (attributes fit fills from .coords, read by "
+        "inverse_transform_scores); from transform/predict of every concrete model (30+ entry points, dispatch on the concrete class) the resolved call "
+        "graph reaches none of them; the *_unseen variants read no such state; every Preprocessor.inverse_transform_scores_unseen call is preceded "
+        "by transform of the same object (dominators, correlated is-not-None blocks, earlier loops); on all functions reachable from transform no "
+        "statistic of the new data along samples is combined arithmetically with that data.",
+        "note": "Necessary structural clauses only. Not decided: absence of spurious NaNs numerically; concatenation equality as values.",
+        "technique": "call-graph reachability to derived typestate sinks, must-precede over CFG dominators, def-use provenance for per-sample purity",
+    },
+    "C06": {
+        "text": "Sanitizer.transform, under check_nans: a raise fires when the current valid-feature mask differs from the fitted one, a raise fires on the "
+        "isolated-NaN predicate (count in {0, number of valid features}), the returned array is where(features & samples, drop=True); the coordinate "
+        "identity check raises and dominates the mask computation; fit goes through transform; the three inverse maps reindex the right dimension to "
+        "the right remembered coordinates and scores/components/inverse_transform of every concrete model reach them; the cross-set fit is checked for "
+        "a joint treatment of both fields' valid samples (known finding: absent).",
+        "note": "Necessary structural clauses only. Not decided: equality with the model fitted on reduced data; NaN-freeness of values. Known "
+        "finding CROSS.joint recorded in known_findings.json.",
+        "technique": "guard/raise role analysis by provenance of the guard condition, dominators, call-graph reachability",
+    },
     "C07": {
         "text": "Every module, function and call site of xeofs is enumerated: no dimension is addressed through the "
         "literals 'sample'/'feature' (constants, keywords, attribute access), no callee with a literal dimension "
